@@ -65,6 +65,17 @@ def body(case, rec, H=None):
     if Sm.shape != Sk.shape or not np.array_equal(Sm, Sk):
         raise Violation("S-entries", "stoichiometric_matrix != build_S")
 
+    # ---- the documented alternative input: the exported bipartite species/reaction graph
+    from synkit.CRN.Hypergraph.conversion import hypergraph_to_bipartite
+
+    Gb = hypergraph_to_bipartite(H)
+    spb, rxb, Sb = stoich.build_S(Gb)
+    Sb = np.asarray(Sb)
+    if list(spb) != species or Sb.shape != (n, m) or Counter(tuple(int(round(x)) for x in Sb[:, j]) for j in range(m)) != Counter(
+        tuple(S[i][j] for i in range(n)) for j in range(m)
+    ):
+        raise Violation("S-bipartite-input", f"{crn_gen.rx_str(case)}: build_S on the bipartite graph differs from produced-consumed")
+
     # ---- rank and kernels
     rk = exact.rank(S)
     if stoich.stoichiometric_rank(H) != rk:
@@ -117,6 +128,8 @@ def body(case, rec, H=None):
         )
     if summ.is_conservative != got or summ.is_consistent != gotf:
         raise Violation("summary", "summary verdicts differ from the direct calls")
+    if stoich.stoichiometric_rank(Gb) != rk or bool(stoich.is_consistent(Gb)) != flux_ref:
+        raise Violation("bipartite-input", f"{crn_gen.rx_str(case)}: rank / consistency on the bipartite graph differ from the exact answers")
 
     # conservative verdicts last: a hit on the recorded finding must not hide the clauses above
     if bool(got) != cons_ref:
